@@ -1144,12 +1144,13 @@ func zipInnerSubscription[T any](subscriberCtx context.Context, obs Observable[T
 						mu.Unlock()
 						verifPoint("operator_combining:zipInnerSubscription:unlocked#2", nil)
 						destination.CompleteWithContext(ctx)
+						subscriptions.Unsubscribe()
 					} else {
+						// Values of this source are still queued: the other sources must keep running until
+						// the queue is drained (onUpdate completes the stream at that point).
 						mu.Unlock()
 						verifPoint("operator_combining:zipInnerSubscription:unlocked#3", nil)
 					}
-
-					subscriptions.Unsubscribe()
 				},
 			),
 		),
@@ -1201,7 +1202,11 @@ func ZipWith1[A, B any](obsB Observable[B]) func(Observable[A]) Observable[lo.Tu
 
 					if (completedA && len(valueA) == 0) ||
 						(completedB && len(valueB) == 0) {
+						// Complete out of the lock: the teardown triggered by Complete takes the same mutex.
+						mu.Unlock()
 						destination.CompleteWithContext(ctx) // @TODO: Send the last context ?
+
+						return
 					}
 				}
 
@@ -1273,7 +1278,11 @@ func ZipWith2[A, B, C any](obsB Observable[B], obsC Observable[C]) func(Observab
 					if (completedA && len(valueA) == 0) ||
 						(completedB && len(valueB) == 0) ||
 						(completedC && len(valueC) == 0) {
+						// Complete out of the lock: the teardown triggered by Complete takes the same mutex.
+						mu.Unlock()
 						destination.CompleteWithContext(ctx) // @TODO: Send the last context ?
+
+						return
 					}
 				}
 
@@ -1352,7 +1361,11 @@ func ZipWith3[A, B, C, D any](obsB Observable[B], obsC Observable[C], obsD Obser
 						(completedB && len(valueB) == 0) ||
 						(completedC && len(valueC) == 0) ||
 						(completedD && len(valueD) == 0) {
+						// Complete out of the lock: the teardown triggered by Complete takes the same mutex.
+						mu.Unlock()
 						destination.CompleteWithContext(ctx) // @TODO: Send the last context ?
+
+						return
 					}
 				}
 
@@ -1439,7 +1452,11 @@ func ZipWith4[A, B, C, D, E any](obsB Observable[B], obsC Observable[C], obsD Ob
 						(completedC && len(valueC) == 0) ||
 						(completedD && len(valueD) == 0) ||
 						(completedE && len(valueE) == 0) {
+						// Complete out of the lock: the teardown triggered by Complete takes the same mutex.
+						mu.Unlock()
 						destination.CompleteWithContext(ctx) // @TODO: Send the last context ?
+
+						return
 					}
 				}
 
@@ -1535,7 +1552,11 @@ func ZipWith5[A, B, C, D, E, F any](obsB Observable[B], obsC Observable[C], obsD
 						(completedD && len(valueD) == 0) ||
 						(completedE && len(valueE) == 0) ||
 						(completedF && len(valueF) == 0) {
+						// Complete out of the lock: the teardown triggered by Complete takes the same mutex.
+						mu.Unlock()
 						destination.CompleteWithContext(ctx) // @TODO: Send the last context ?
+
+						return
 					}
 				}
 
@@ -1613,8 +1634,11 @@ func zipAllInnerSubscriptions[T any](outerCtx context.Context, sources []Observa
 
 			for i := range sources {
 				if completed[i] && len(values[i]) == 0 {
+					// Complete out of the lock: the teardown triggered by Complete takes the same mutex.
+					mu.Unlock()
 					destination.CompleteWithContext(ctx) // @TODO: Send the last context ?
-					break
+
+					return
 				}
 			}
 		}
